@@ -33,12 +33,19 @@ def scenario(rng):
             other = rng.choice([n for n in ("look%d" % k, "peek%d" % k, "read%d" % k) if n != ext_peek])
             specs.append("peek%d" % k if other == "peek%d" % k else "(rename peek%d %s)" % (k, other))
             peek_names.append(other)
+        # an EXTERNAL name that is also the name of a different, unexported binding inside the library: exporting under that name
+        # must not touch the internal binding (the library's own procedures keep using theirs)
+        aux_alias = rng.random() < 0.4
+        specs.append("get-aux%d" % k)
+        if aux_alias:
+            specs.append("(rename peek%d aux%d)" % (k, k))
+            peek_names.append("aux%d" % k)
         rng.shuffle(specs)
         cut = rng.choice([len(specs), len(specs), rng.randrange(1, len(specs))])
         exports = "(export %s)" % " ".join(specs[:cut]) + (" (export %s)" % " ".join(specs[cut:]) if cut < len(specs) else "")
         files.append("Fs%d.sld=(define-library (s%d) (import (scheme base)) %s "
                      "(begin (define n 0) (define (helper) (quote hidden%d)) (define (next%d) (set! n (+ n 1)) n) "
-                     "(define (peek%d) n) (define (probe%d) importer-secret)))" % (k, k, exports, k, k, k, k))
+                     "(define (peek%d) n) (define (probe%d) importer-secret) (define aux%d 77) (define (get-aux%d) aux%d)))" % (k, k, exports, k, k, k, k, k, k, k))
         libs["s%d" % k] = {"peek": ext_peek, "peeks": peek_names, "step": step}
     # wrapper libraries wJ importing some state libs (and earlier wrappers), exporting bumpers
     nwrap = rng.randrange(0, 3)
@@ -93,6 +100,9 @@ def scenario(rng):
             else:
                 # library code never sees the importer's definitions
                 forms.append("(probe%d)" % k); expect.append("E unbound")
+        elif op < 0.76 and imported_direct:
+            k = rng.choice(imported_direct)
+            forms.append("(get-aux%d)" % k); expect.append("V i:77")      # the library's own aux, whatever is exported as aux<k>
         elif op < 0.8:
             forms.append("(define n %d)" % rng.randrange(5000, 6000)); expect.append("N")
         elif op < 0.86 and imported_direct:
